@@ -752,6 +752,16 @@ class Retrieve:
         block, salt = block_and_salt
         _assert(isinstance(block, bytes), (block, salt))
 
+        # The SDMF IV is not covered by the block hash (only MDMF hashes
+        # salt+block); it is covered by the signature over the prefix. A
+        # reader that came with the servermap had that prefix checked, but
+        # one we created ourselves fetched its own header, so make sure we
+        # decrypt with the IV of the version we were asked to retrieve.
+        if self._version == SDMF_VERSION and salt != self.verinfo[2]:
+            raise CorruptShareError(server,
+                                    reader.shnum,
+                                    "IV does not match the signed prefix")
+
         blockhashes = dict(enumerate(blockhashes))
         self.log("the reader gave me the following blockhashes: %s" % \
                  list(blockhashes.keys()))
